@@ -1,6 +1,7 @@
 \* roots, liveness: the call returns when no shard hangs, and when the context ends
 CONSTANTS
   ShardLists <- MCListPerLength
+  Deployments <- MCDepClassic
   Instants = {0, 1, 2, 3, 4}
   Scenes = {"roots"}
   ChainKinds = {"x509", "precert", "precertPreIssuer"}
